@@ -196,6 +196,8 @@ class P:
                 e = ("call", e, self.args())
             elif self.at("?"):
                 self.next(); e = ("try", e)
+            elif self.at("as"):
+                self.next(); self.type_(); e = ("cast", e)
             else: return e
     def primary(self, nostruct):
         x = self.peek()
@@ -398,6 +400,7 @@ def show(e):
     if k == "struct": return e[1] + "{..}"
     if k == "macro": return e[1] + "!(..)"
     if k == "try": return show(e[1]) + "?"
+    if k == "cast": return show(e[1]) + " as _"
     if k == "tuple": return "(" + ",".join(show(a) for a in e[1]) + ")"
     if k == "return": return "return " + (show(e[1]) if e[1] else "")
     if k == "if": return "if " + (show(e[1]) if e[1][0] != "let" else "let.." ) + "{..}"
